@@ -30,10 +30,12 @@ type runner struct {
 }
 
 type job struct {
-	c    *Case
-	tag  string
-	idx  int
-	seed uint64
+	c       *Case
+	tag     string
+	idx     int
+	seed    uint64
+	launder uint64 // != 0: pass the rules through a RuleManager first (random recipe from this seed)
+	plan    *plan  // directed laundering recipe
 }
 
 // start launches the evaluation workers. The list of cases is fixed by seed and tier; the workers
@@ -46,7 +48,7 @@ func (x *runner) start(workers int) {
 			defer x.wg.Done()
 			lc := newLocal()
 			for j := range x.jobs {
-				x.handle(lc, j.c, j.tag, j.idx, j.seed)
+				x.handle(lc, j)
 			}
 			lc.flush(x.r)
 		}()
@@ -204,9 +206,36 @@ func witnessOf(c *Case, o *outcome) map[string]interface{} {
 }
 
 // handle evaluates one case and does all the accounting.
-func (x *runner) handle(lc *local, c *Case, tag string, idx int, seed uint64) {
+func (x *runner) handle(lc *local, j job) {
 	r := x.r
-	o := judge(c, seed, &lc.cache)
+	c, tag, idx, seed := j.c, j.tag, j.idx, j.seed
+	var lr *launderResult
+	var o *outcome
+	if j.launder != 0 || j.plan != nil {
+		lr = launder(c, j.launder, j.plan)
+		if lr.rejected != "" {
+			lc.count("laundered_rejected_by_manager_judged_plain", 1)
+			lc.count("laundered_rejected:"+lr.rejected, 1)
+			lr = nil
+		}
+	}
+	if lr != nil {
+		c = lr.derived
+		o = judgeRules(c, seed, &lc.cache, lr.rules)
+		o.Findings = append(o.Findings, lr.findings...)
+		o.shape += "|via:" + fetchNames[lr.fetch]
+		lc.count("cases_laundered", 1)
+		lc.count("laundered_fetch:"+fetchNames[lr.fetch], 1)
+		lc.count("laundered_visible_field_edits", int64(lr.edits))
+		if lr.edits > 0 {
+			lc.count("cases_laundered_with_edits", 1)
+		}
+		if lr.persist {
+			lc.count("cases_laundered_edited_copy_written_back_and_refetched", 1)
+		}
+	} else {
+		o = judge(c, seed, &lc.cache)
+	}
 	lc.evals++
 	lc.count("cases_"+tag, 1)
 	if o.Skip != "" {
@@ -267,27 +296,44 @@ func (x *runner) handle(lc *local, c *Case, tag string, idx int, seed uint64) {
 			r.Inconclusive("%s: %s (case %s #%d)", f.Key, f.What, tag, idx)
 			continue
 		}
-		lc.count("refuted:"+f.Key, 1)
+		key := f.Key
+		plainFails := true
+		if lr != nil {
+			// does the same visible case fail with hand-built rule objects too?
+			plainFails = hasKey(judge(c, seed, nil), f.Key)
+			if !plainFails {
+				key += ":only-with-rule-objects-from-rule-manager"
+			}
+		}
+		lc.count("refuted:"+key, 1)
 		x.mu.Lock()
-		seen := x.reported[f.Key]
-		x.reported[f.Key] = true
+		seen := x.reported[key]
+		x.reported[key] = true
 		x.mu.Unlock()
 		if seen {
 			lc.count("refuted_further_cases", 1) // the first witness of this key is (being) written
 			continue
 		}
-		min := shrink(c, f.Key, seed)
-		mo := judge(min, seed, nil)
+		wit := map[string]interface{}{"tag": tag, "case_index": idx, "case_seed": seed, "original": witnessOf(c, o)}
 		what := f.What
-		for _, mf := range mo.Findings {
-			if mf.Key == f.Key {
-				what = mf.What
+		if plainFails {
+			min := shrink(c, f.Key, seed)
+			mo := judge(min, seed, nil)
+			for _, mf := range mo.Findings {
+				if mf.Key == f.Key {
+					what = mf.What
+				}
+			}
+			wit["minimal"] = witnessOf(min, mo)
+		}
+		if lr != nil {
+			wit["laundered"] = map[string]interface{}{"base_case": j.c, "launder_seed": j.launder, "plan": j.plan, "steps": lr.steps,
+				"note": "original.case shows the exported fields of the rule objects that were passed to FitRegion"}
+			if !plainFails {
+				what += " [the same visible rules built as plain literals are fitted correctly: the rule objects obtained from the RuleManager carry state that differs from their visible fields; steps: " + strings.Join(lr.steps, "; ") + "]"
 			}
 		}
-		r.Violation(f.Key, what, map[string]interface{}{
-			"tag": tag, "case_index": idx, "case_seed": seed,
-			"minimal": witnessOf(min, mo), "original": witnessOf(c, o),
-		})
+		r.Violation(key, what, wit)
 	}
 }
 
@@ -307,6 +353,11 @@ func (x *runner) replay(path string) {
 			Original struct {
 				Case *Case `json:"case"`
 			} `json:"original"`
+			Laundered *struct {
+				Base *Case  `json:"base_case"`
+				Seed uint64 `json:"launder_seed"`
+				Plan *plan  `json:"plan"`
+			} `json:"laundered"`
 		} `json:"witness"`
 	}
 	if err := json.Unmarshal(b, &doc); err != nil {
@@ -316,9 +367,14 @@ func (x *runner) replay(path string) {
 	n := 0
 	lc := newLocal()
 	defer func() { lc.flush(r) }()
+	if l := doc.Witness.Laundered; l != nil && l.Base != nil {
+		x.handle(lc, job{c: l.Base, tag: "replay", idx: 100, seed: doc.Witness.Seed, launder: l.Seed, plan: l.Plan})
+		r.Distinct("replay-laundered")
+		n++
+	}
 	for _, c := range []*Case{doc.Witness.Minimal.Case, doc.Witness.Original.Case} {
 		if c != nil {
-			x.handle(lc, c, "replay", n, doc.Witness.Seed)
+			x.handle(lc, job{c: c, tag: "replay", idx: n, seed: doc.Witness.Seed})
 			r.Distinct(fmt.Sprintf("replay-%d", n))
 			n++
 		}
@@ -334,6 +390,8 @@ func main() {
 	r.Assume("oracle = independent Go model written from the property statement and the doc comments (constraint ops, exclusive labels '$*'/engine/exclusive, role matching and the only impossible conversion non-learner->learner, isolation score = sum over peer pairs of 100^(L-i-1), order: per rule more peers, fewer mismatches, higher isolation, then fewer orphans); brute force over ALL (K+1)^n maps")
 	r.Assume("FitRegion is called with a StoreSet that holds every store of the cluster (GetStores) and resolves every peer's store (GetStore); peers sit on distinct stores, roles are Voter/Learner only (no joint-consensus roles), exactly one leader and it is a voter, counts >= 1, label keys unique per store")
 	r.Assume("zones the statement does not decide (letter case of keys/values, empty label values, stores lacking a location label of a rule) are judged only when all readings agree on every primitive; otherwise skipped_ambiguous")
+	r.Assume("laundered mode (40% of the random cases + a directed family): the rule list is stored in a real placement.RuleManager (memory kv), fetched back via GetRule / GetAllRules / GetRulesForApplyRegion / GetRulesByKey (+Clone), visible fields of harness-owned copies are edited in place, optionally SetRule + re-fetch, and those objects go to FitRegion; the model reads only their exported fields. Rule lists the manager rejects (e.g. leader rule with count > 1) are judged as plain literals and counted")
+	quietLogs()
 	x := &runner{r: r, reported: map[string]bool{}}
 	if r.Replay != "" {
 		x.replay(r.Replay)
@@ -358,9 +416,14 @@ func main() {
 		workers = 2
 	}
 	x.start(workers)
+	if r.Shard == 0 { // directed laundered family first: its witnesses are the small ones
+		for _, j := range directedCases() {
+			x.jobs <- j
+		}
+	}
 	done := 0
 	lay.each(r.Shard, r.Shards, func(idx int, c *Case) {
-		x.jobs <- job{c, "exhaustive", idx, uint64(idx)*2654435761 + 12345}
+		x.jobs <- job{c: c, tag: "exhaustive", idx: idx, seed: uint64(idx)*2654435761 + 12345}
 		done++
 	})
 	r.Set("exhaustive_layout", lay.name)
@@ -375,7 +438,11 @@ func main() {
 	for i := 0; i < n; i++ {
 		seed := rng.Uint64()
 		c := genCase(rand.New(rand.NewSource(int64(seed))))
-		x.jobs <- job{c, "random", i, seed}
+		j := job{c: c, tag: "random", idx: i, seed: seed}
+		if seed%10 < 4 {
+			j.launder = seed>>8 | 1
+		}
+		x.jobs <- j
 	}
 	x.wait()
 	r.Set("workers_per_process", fmt.Sprint(workers))
